@@ -4,7 +4,7 @@ import ast
 from . import rule, info
 from ..program import AnalysisError, src, norm, ClassInfo
 from ..pattern import match, matches
-from ..util import (is_name, calls_in, callee_qual, deref, ancestors, evaluator_calls, stmt_of, parent)
+from ..util import (exclusive, polarity, is_name, calls_in, callee_qual, deref, ancestors, evaluator_calls, stmt_of, parent)
 
 info('C07',
      explanation='Static decision of: every frame write goes to a frame owned by the writing evaluation '
@@ -448,8 +448,12 @@ def binders_pass_through(ctx):
     nxt = [s for s, lab in an.succ if lab == 'next']
     ok = len(nxt) == 1 and isinstance(nxt[0].ast, ast.Return) and is_name(nxt[0].ast.value, target)
     ctx.ob(ok, u, 'A passes the target through: %s' % (norm(nxt[0].ast) if nxt else None))
-    g = [x for x in ancestors(asg[0]) if isinstance(x, ast.If)]
-    ok = bool(g) and norm(g[0].test) == '%s is A' % root
+    ok = False
+    for t in cfg.nodes:
+        if t.kind == 'test':
+            pol = polarity(t.ast, '%s is A' % root)
+            if pol and cfg.dominates(t, an) and an in exclusive(cfg, t, pol):
+                ok = True
     ctx.ob(ok, u, 'assignment happens exactly for root A')
     forced = [n for n in u.own_nodes() if isinstance(n, ast.If) and isinstance(n.test, ast.Compare)
               and isinstance(n.test.ops[0], ast.Is) and is_name(n.test.comparators[0], scope)]
